@@ -270,8 +270,28 @@ impl Expr {
 
                 let rhs = rhs.for_type(flags)?;
 
-                lhs.get_output_type(&rhs, op, flags)
-                    .with_context(|| format!("invalid operation: {} {} {}", lhs, op.symbol(), rhs))
+                let output = lhs
+                    .get_output_type(&rhs, op, flags)
+                    .with_context(|| format!("invalid operation: {} {} {}", lhs, op.symbol(), rhs))?;
+
+                if op.is_op_assign()
+                    && !lhs
+                        .disregard_optional()
+                        .unwrap_or(lhs.as_ref())
+                        .eq_complex(&output, flags)
+                {
+                    // the result is stored back into the left operand, whose type does not change
+                    bail!(
+                        "invalid operation: {} {} {} yields `{}`, which cannot be stored in a `{}`",
+                        lhs,
+                        op.symbol(),
+                        rhs,
+                        output,
+                        lhs
+                    )
+                }
+
+                Ok(output)
             }
             Expr::UnaryMinus(val) | Expr::UnaryNot(val) => val.for_type(flags),
             Expr::Callable(CallableContents::Standard { function, .. }) => {
